@@ -193,6 +193,15 @@ def run(ck, prog, ctx):
                     ck.ob("PRECHECK", "%s/%s-vs-%s" % (eb.short, names[0], names[1]), not extra, "%s fails when %s is %s %s; Hypergeometric::new fails for %s%s" % (
                         eb.short, names[0], "/".join(sorted(fail)), names[1], "/".join(sorted(allowed)) or "no outcome", "" if not extra else ": the case `%s` (%s == %s: e.g. the sample is the whole background) is refused here although the model accepts it" % (extra[0], names[0], names[1]) if extra[0] == "eq" else ": `%s` is refused here only" % extra[0]), where=eb.where(c_["line"]))
 
+    # ---- one record per annotation: the loops of the enrichment functions run to the end (a `break` where a record is to be skipped drops the rest)
+    from engines import loop_early_exits as _lee6
+    for eb in sorted(prog.production(), key=lambda x: x.id):
+        if eb.kind in ("Fn", "AssocFn") and (eb.file or "").startswith("src/stats/hypergeom/") and not (eb.file or "").endswith("statrs.rs"):
+            for fb_ in prog.family(eb):
+                for li_, lp_ in enumerate(for_loops(fb_)):
+                    ex_ = _lee6(fb_, lp_)
+                    ck.ob("ROLE", "loop-runs-to-the-end/%s/%d" % (fb_.short, li_), not ex_, "%s: the loop in line %s %s" % (fb_.short, lp_["line"], "ends only when its iterator is exhausted" if not ex_ else
+                          "can be left early (line %s) and still return normally: the annotations behind that point get no record" % fb_.blocks[ex_[0][0]].term.line), where=fb_.where(lp_["line"]))
     ai = absint.Interp(prog)
     n_inner = 0
     for fid in INNER:
